@@ -237,6 +237,11 @@ def run(ctx):
         rets = [n for n in own_walk(m.node) if isinstance(n, ast.Return)]
         ok = len(loops) == 1 and all(ctor_of(m.node, r) in SAME_CLASS for r in rets) and f".{name}(" in ast.unparse(loops[0])
         ctx.expect(ok, "R15.3", f"DatasetWrapper.{name}", "selection is applied to every variable and returns a new object of the same class", m.loc())
+    # ---- R15.4 no unsynchronised derived state on the objects this property queries (shared rule, see statecache.py)
+    from ..statecache import instance_memo_rule as _memo, positive_example as _memo_pos
+    _memo(ctx, "R15.4", [p.get_class("wavespectra.spectrum.FrequencySpectrum"), p.get_class("wavespectra.spectrum.FrequencyDirectionSpectrum")], "spectrum classes")
+    _memo_pos(ctx, "R15.4")
+    ctx.require_count("R15.4", 2)
     ctx.require_count("R15.1", 150)
     ctx.require_count("R15.2", 5)
     ctx.require_count("R15.3", 9)
